@@ -590,8 +590,15 @@ class Prog:
         s = self.shape[a]
         choices = ["neg", "scale", "relu", "sum", "reshape", "powf"]
         if self.mode != "exact":
-            choices += ["sigmoid", "exp", "softmax"]
+            choices += ["sigmoid", "exp", "softmax", "recip", "ln"]
         op = rng.choice(choices)
+        if op in ("recip", "ln"):
+            # keep the operand positive: go through exp first
+            t = self.fresh()
+            self.emit("exp %s %s" % (t, a))
+            self.shape[t] = list(s); self.tr[t] = self.tr[a]
+            self.note("exp", t, [a])
+            a = t
         r = res or self.fresh()
         if op == "scale":
             self.emit("scale %s %s %s" % (r, a, sc(rng.choice([2, -1, 3, Fraction(1, 2)]) if self.mode == "exact" else rng.uniform(-2, 2), self.mode)))
@@ -1052,11 +1059,16 @@ OPS_WITH_ARGS = {"add": (2, 3), "sub": (2, 3), "mul": (2, 3), "div": (2, 3), "ne
                  "matmul": (2, 4, 6)}
 
 
-def build_program(rng, mode, nops, allow_cop=True):
+def build_program(rng, mode, nops, allow_cop=True, flagops=False):
     p = Prog(rng, mode)
     for _ in range(rng.randint(2, 3)):
         p.new_leaf()
     for _ in range(nops):
+        if flagops and rng.random() < 0.25:
+            v = p.pick()
+            op = rng.choice(["stop", "start", "untracked", "tracked", "stop"])
+            p.emit("%s %s" % (op, v))
+            p.tr[v] = op in ("start", "tracked")
         x = rng.random()
         if x < 0.55:
             p.op_binary()
@@ -1074,7 +1086,7 @@ def fam_transparent(rng, n, tier, mode="exact"):
     use, variables re-bound, the pass started from a clone); all observable results must coincide"""
     cases = []
     for i in range(n):
-        p = build_program(rng, mode, rng.randint(2, 10 if tier == "quick" else 16))
+        p = build_program(rng, mode, rng.randint(2, 10 if tier == "quick" else 16), flagops=(rng.random() < 0.6))
         root = rng.choice(sorted(p.inter & set(p.shape)) or p.names())
         names = set(p.shape)
         base = list(p.L)
@@ -1110,7 +1122,7 @@ def fam_transparent(rng, n, tier, mode="exact"):
                         live.add(toks[1])
                         continue
             edited.append(l)
-            if toks[0] not in ("tracked", "untracked"):
+            if toks[0] not in ("tracked", "untracked", "start", "stop"):
                 live.add(toks[1])
             # drop a handle once the program no longer names it
             for v in sorted(live - dropped):
@@ -1370,3 +1382,65 @@ def fam_chains(rng, n, tier, mode="exact"):
 
 
 FAMILIES.update({"accumulate": fam_accumulate, "bcast_add": fam_bcast_add, "chains": fam_chains})
+
+
+def fam_alias(rng, n, tier, mode="exact"):
+    """C08: histories built around shared storage — reshaped views, clones, gradients fetched from the
+    cells, seeds passed as clones (so a gradient cell shares the seed's buffer) — followed by further
+    passes and updates; the harness re-reads every live handle after every command."""
+    cases = []
+    for i in range(n):
+        p = Prog(rng, mode)
+        leaves = [p.new_leaf(tracked=True) for _ in range(rng.randint(1, 3))]
+        fetched = 0
+        for step in range(rng.randint(6, 22 if tier == "quick" else 34)):
+            x = rng.random()
+            if x < 0.22:
+                # a view of something live
+                a = p.pick()
+                cnt = prod(p.shape[a])
+                d = rng.choice([d for d in range(1, cnt + 1) if cnt % d == 0])
+                r = p.fresh("w")
+                p.emit("reshape %s %s %s" % (r, a, dims_s([d, cnt // d])))
+                p.shape[r] = [d, cnt // d]; p.tr[r] = p.tr[a]; p.inter.add(r); p.tainted.add(r)
+            elif x < 0.45:
+                p.random_op()
+            elif x < 0.70 and p.inter:
+                v = rng.choice(sorted(p.inter & set(p.shape)))
+                if rng.random() < 0.6:
+                    s = p.seed_for(v)
+                    p.emit("backwardc %s %s" % (v, s))
+                    p.tainted.add(s)
+                else:
+                    p.backward(v)
+            elif x < 0.85:
+                v = p.pick()
+                w = p.fresh("t")
+                p.emit("grad %s" % v)
+                # fetch only where a gradient certainly exists: tracked leaves after a pass is not
+                # known statically, so `takegrad` may end the case (identically on both sides)
+                p.emit("takegrad %s %s" % (w, v))
+                p.shape[w] = list(p.shape[v]); p.tr[w] = False; p.leaf.add(w); p.tainted.add(w)
+                fetched += 1
+            elif x < 0.92:
+                v = p.pick()
+                w = p.fresh("k")
+                p.emit("clone %s %s" % (w, v))
+                p.shape[w] = list(p.shape[v]); p.tr[w] = p.tr[v]; p.tainted.add(w)
+                if v in p.inter:
+                    p.inter.add(w)
+            else:
+                lr = rng.choice([1, 2, Fraction(1, 2)]) if mode == "exact" else rng.uniform(0.01, 1.0)
+                ls = [l for l in leaves if l in p.shape]
+                if ls:
+                    for l in ls:
+                        p.emit("clone old_%s_%d %s" % (l, step, l))
+                        p.shape["old_%s_%d" % (l, step)] = list(p.shape[l]); p.tr["old_%s_%d" % (l, step)] = True
+                        p.tainted.add("old_%s_%d" % (l, step))
+                    p.emit("gdupdate %s %s" % (sc(lr, mode), ",".join(ls)))
+        p.emit("snapshot")
+        cases.append(Case(p.L, ("alias", i, dag_key(p)), ["fetched%d" % min(fetched, 3)] + sorted(set(p.ops_used))[:4], mode))
+    return cases
+
+
+FAMILIES.update({"alias": fam_alias})
